@@ -472,6 +472,12 @@ def eval_compare(opcode: str, lhs: ValueRange, rhs: ValueRange) -> ValueRange:
                     return ValueRange.constant(0)
             return ValueRange.bool_range()
 
+    # Signed comparisons reinterpret words above SIGNED_MAX as negative
+    # numbers, so the raw bounds of a range reaching above SIGNED_MAX do
+    # not order its values in the signed sense.
+    if is_signed and (lhs.hi > SIGNED_MAX or rhs.hi > SIGNED_MAX):
+        return ValueRange.bool_range()
+
     # Now we can use signed comparison logic (works for both signed ops
     # and unsigned ops where both ranges have the same sign)
     if opcode in {"lt", "slt"}:
